@@ -99,13 +99,19 @@ def run(ctx):
                         ctx.alarm('correspondence', 'SGD reconstruction differs from the model (pad, %s, crop) of the returned hologram by %.3g (%s)'
                                   % (name, W.maxdiff(rn.reshape(h, w), mo), rec))
     # ---------------- NumPy Gerchberg-Saxton
+    even_seen = 0
     for (h, w) in shapes:
-        for z in (rng.uniform(0.5, 3), -rng.uniform(0.5, 3)):
-            if ctx.quick and rng.random() < 0.5:
+        even = not (h % 2 or w % 2)
+        if even:
+            even_seen += 1
+        for zi, z in enumerate((rng.uniform(0.5, 3), -rng.uniform(0.5, 3))):
+            # quick tier: one sign per shape, alternating over the EVEN shapes (odd ones raise: finding F30), so both signs are always exercised
+            if ctx.quick and zi != (even_seen % 2 if even else 0):
                 continue
             np.random.seed(rng.randrange(10 ** 6))
             field = np.random.rand(h, w) + 0j
             rec = {'routine': 'np.gerchberg_saxton', 'h': h, 'w': w, 'distance': z}
+            ctx.count('np.gerchberg_saxton/%s/%s' % ('even' if even else 'odd', 'z>0' if z > 0 else 'z<0'))
             ctx.case(('npgs', h, w, round(z, 6)), True)
             odd = bool(h % 2 or w % 2)
             try:
